@@ -592,8 +592,11 @@ impl Primitive {
     pub fn try_into_numeric_index(&self) -> Result<usize> {
         Ok(match self {
             Primitive::Byte(byte) => *byte as usize,
-            Primitive::BigInt(bigint) => *bigint as usize,
-            Primitive::Int(int) => *int as usize,
+            // (a cast would wrap: 2^64 must not become index 0)
+            Primitive::BigInt(bigint) => usize::try_from(*bigint)
+                .map_err(|_| anyhow::anyhow!("index {bigint} out of bounds"))?,
+            Primitive::Int(int) => usize::try_from(*int)
+                .map_err(|_| anyhow::anyhow!("index {int} out of bounds"))?,
             other => bail!("cannot index with {other}"),
         })
     }
